@@ -54,6 +54,8 @@ class Lin:
                 return "len(%s)" % k[2]
             if k[0] == "val":
                 return k[2]
+            if k[0] == "pos":
+                return "pos(%s)" % k[2]
             return "?%s" % (k[1],)
         parts = ["%s%s" % ("" if v == 1 else "-" if v == -1 else "%d*" % v, nm(k)) for k, v in sorted(self.t.items(), key=lambda kv: str(kv[0]))]
         if self.c or not parts:
@@ -105,7 +107,7 @@ class Evaluator:
             if len(cs) == 1 and not ds and cs[0].is_(PASS.pattern) and cs[0].args:
                 op = cs[0].args[0]
             elif len(ds) == 1 and not cs and ds[0][1][0] in ("use", "cast"):
-                op = ds[0][1][1]
+                op = ds[0][1][1] if ds[0][1][0] == "use" else ds[0][1][2]
             elif len(ds) == 1 and not cs and ds[0][1][0] == "ref":
                 op = {"p": ds[0][1][2]}
             else:
@@ -115,6 +117,15 @@ class Evaluator:
 
     # ---- lengths
     def length(self, op, depth=0):
+        self._nest = getattr(self, "_nest", 0) + 1
+        try:
+            if self._nest > 30:
+                return Lin.atom(("opaque", "deep"))
+            return self._length(op, depth)
+        finally:
+            self._nest -= 1
+
+    def _length(self, op, depth=0):
         op = self._through(op)
         if "p" in op and len([x for x in op["p"][1:] if x != "*"]) == 0 and depth < 8:
             l = op["p"][0]
@@ -134,6 +145,10 @@ class Evaluator:
                         return self.length(base, depth + 1)
         k = self._key(op)
         if k is None:
+            if "p" in op and len(self._defs(op["p"][0])) + len(self.calls_by_dest.get(op["p"][0], [])) <= 1:
+                # a single-assignment local (or a field of one): its length is a stable symbol
+                pl = tuple(x for x in op["p"] if x != "*")
+                return Lin.atom(("len", frozenset({("local",) + pl}), "_%s" % "".join(str(x) for x in pl)))
             return Lin.atom(("opaque", str(op)))
         return Lin.atom(("len", k[0], k[1]))
 
@@ -159,6 +174,15 @@ class Evaluator:
 
     # ---- integer values
     def value(self, op, depth=0):
+        self._nest = getattr(self, "_nest", 0) + 1
+        try:
+            if self._nest > 30:
+                return Lin.atom(("opaque", "deep"))
+            return self._value(op, depth)
+        finally:
+            self._nest -= 1
+
+    def _value(self, op, depth=0):
         if "p" not in op:
             if isinstance(op.get("v"), int):
                 return Lin({}, op["v"])
@@ -175,6 +199,12 @@ class Evaluator:
         if proj == [".0"] and len(ds) == 1 and ds[0][1][0] == "bin" and ds[0][1][1].endswith("WithOverflow"):
             return self._bin(ds[0][1], depth)
         if proj:
+            if len(cs) == 1 and not ds and proj in (["as Some", ".0"], ["as Ok", ".0"], ["as Continue", ".0"]):
+                pos = self._search_atom(cs[0])
+                if pos is not None:
+                    return pos
+            if not cs and len(ds) == 1 and proj in (["as Some", ".0"], ["as Ok", ".0"], ["as Continue", ".0"]) and ds[0][1][0] == "use" and "p" in ds[0][1][1] and len(ds[0][1][1]["p"]) == 1:
+                return self.value({"p": ds[0][1][1]["p"] + proj}, depth + 1)
             k = self._key(op)
             return Lin.atom(("val", k[0], k[1])) if k else Lin.atom(("opaque", tuple(op["p"])))
         if len(cs) == 1 and not ds:
@@ -186,13 +216,44 @@ class Evaluator:
             return Lin.atom(("opaque", "%s@%d" % (c.name.split("::")[-1], c.block)))
         if len(ds) == 1 and not cs:
             rv = ds[0][1]
-            if rv[0] in ("use", "cast"):
+            if rv[0] == "use":
                 return self.value(rv[1], depth + 1)
+            if rv[0] == "cast":
+                return self.value(rv[2], depth + 1)
             if rv[0] == "bin":
                 return self._bin(rv, depth)
             if rv[0] == "ref":
                 return self.value({"p": rv[2]}, depth + 1)
+            if rv[0] == "un" and rv[1] == "PtrMetadata":
+                return self.length(rv[2])
+            if rv[0] == "len":
+                return self.length({"p": rv[1]} if isinstance(rv[1], list) else rv[1])
         return Lin.atom(("opaque", l))
+
+    SEARCH = r"::position$|::find_byte$|::find$|::find_byteset$|::find_not_byteset$|::rfind_byte$|::rfind$|::rposition$|memchr::memchr\w*$|::find_char$|::rfind_byteset$"
+
+    def _search_atom(self, c):
+        """the index returned by a search on slice B: atom ('pos', block, text) with the fact len(B) - pos - 1 >= 0 recorded in self.pos_facts"""
+        if not c.is_(self.SEARCH) or not c.args:
+            return None
+        base = c.args[0]
+        # position() is called on an iterator: walk back to the slice it iterates
+        b2 = self._through(base)
+        for _ in range(4):
+            if "p" in b2:
+                cs = self.calls_by_dest.get(b2["p"][0], [])
+                if len(cs) == 1 and cs[0].is_(r"::iter$|::into_iter$|::bytes$|::iter_mut$|::enumerate$|::copied$|::cloned$") and cs[0].args:
+                    b2 = self._through(cs[0].args[0]); continue
+            break
+        ln = self.length(b2)
+        if ln.opaque():
+            return None
+        a = ("pos", c.block, "%s@%d" % (c.name.split("::")[-1], c.line))
+        if not hasattr(self, "pos_facts"):
+            self.pos_facts = []
+        atom = Lin.atom(a)
+        self.pos_facts.append(ln - atom - Lin({}, 1))
+        return atom
 
     def _bin(self, rv, depth):
         op = rv[1].replace("WithOverflow", "").replace("Unchecked", "")
